@@ -12,7 +12,7 @@ theorem keeps_pair {R : St → St → Prop} {b : Body} (h : Keeps R b) {s s1 : S
     (e : b s = (s1, r)) : R s s1 := by
   have := h s; rw [e] at this; exact this
 
-theorem sameCtx_good (a b : St) (h : b.ctx = a.ctx) : Good a b := rel_sameCtx good a b h
+theorem sameCtx_good (a b : St) (h : b.ctx = a.ctx) : Good a b := good_ctx_right a a b h (good.refl a)
 
 /-- one decorated step of an allowed kind, given the invariant for the group runner it may call. -/
 theorem runStep_good (prog : Program) (fuel : Nat) (pipe : String) (d : StepDef) (hd : stepOk d = true)
@@ -34,28 +34,33 @@ theorem runStep_good (prog : Program) (fuel : Nat) (pipe : String) (d : StepDef)
     have plain : ∀ r : Res, (∀ c, r ≠ .call c) →
         Good s (runStepDescribed d (fun s => (s, r))
           (fun (c : CofCfg) s' => runGroups fuel prog (s'.stack.head?.getD pipe) c.groups c.success c.failure s') fuel s).1 :=
-      fun r hr => runStepDescribed_keeps good d _ _ fuel (saveError_good d) (fun s => good.refl s) hc
+      fun r hr => runStepDescribed_keeps good d _ _ fuel (fun s e sw _ => record_good d s e sw) (fun s e _ _ => log_good d s e)
+        (fun s => good.refl s) hc
         (fun s s1 c h => by injection h with _ h2; exact absurd h2 (hr c))
         (setIn_good d hd) (unsetIn_good d hd) s
     cases kind with
     | probe =>
-      exact runStepDescribed_keeps good d probeStep _ fuel (saveError_good d) probeStep_good hc
+      exact runStepDescribed_keeps good d probeStep _ fuel (fun s e sw _ => record_good d s e sw)
+        (fun s e _ _ => log_good d s e) probeStep_good hc
         (fun s s1 c h => absurd h (probeStep_not_call s s1 c)) (setIn_good d hd) (unsetIn_good d hd) s
     | stop => exact plain .stop (by intro c h; cases h)
     | stopPipeline => exact plain .stopPipeline (by intro c h; cases h)
     | stopGroup => exact plain .stopGroup (by intro c h; cases h)
     | call =>
-      exact runStepDescribed_keeps good d (cofStep "call" true) _ fuel (saveError_good d)
+      exact runStepDescribed_keeps good d (cofStep "call" true) _ fuel (fun s e sw _ => record_good d s e sw)
+        (fun s e _ _ => log_good d s e)
         (fun s => sameCtx_good _ _ (cofStep_ctx _ _ s)) hc
         (fun s s1 c h => by rw [cofStep_callKey _ _ _ _ _ h]; exact hW _ (.inl rfl))
         (setIn_good d hd) (unsetIn_good d hd) s
     | jump =>
-      exact runStepDescribed_keeps good d (cofStep "jump" false) _ fuel (saveError_good d)
+      exact runStepDescribed_keeps good d (cofStep "jump" false) _ fuel (fun s e sw _ => record_good d s e sw)
+        (fun s e _ _ => log_good d s e)
         (fun s => sameCtx_good _ _ (cofStep_ctx _ _ s)) hc
         (fun s s1 c h => by rw [cofStep_callKey _ _ _ _ _ h]; exact hW _ (.inr (.inl rfl)))
         (setIn_good d hd) (unsetIn_good d hd) s
     | switch =>
-      exact runStepDescribed_keeps good d switchStep _ fuel (saveError_good d)
+      exact runStepDescribed_keeps good d switchStep _ fuel (fun s e sw _ => record_good d s e sw)
+        (fun s e _ _ => log_good d s e)
         (fun s => sameCtx_good _ _ (switchStep_ctx s)) hc
         (fun s s1 c h => by rw [switchStep_callKey _ _ _ h]; exact hW _ (.inr (.inr rfl)))
         (setIn_good d hd) (unsetIn_good d hd) s
@@ -105,14 +110,16 @@ theorem allGood_succ (prog : Program) (hp : progOk prog = true) (n : Nat) (ih : 
         | exact good.trans h1 (ih2 pipe rest (fun d' hd' => hds d' (List.mem_cons_of_mem _ hd')) s1)
   · -- runStepGroup
     intro pipe g rs s
+    by_cases hg0 : g = ""
+    · subst hg0; rw [runStepGroup_empty_name]; exact rel_raiseNew good _ _ _
     cases hgs : getPipelineSteps prog pipe g with
     | error e =>
       obtain ⟨en, em⟩ := e
-      rw [runStepGroup_unsized n prog pipe g rs s en em hgs]
+      rw [runStepGroup_unsized n prog pipe g rs s en em hgs hg0]
       exact rel_raiseNew good _ _ _
     | ok ss =>
       have hss : groupSteps prog pipe g = ss := by unfold groupSteps; rw [hgs]
-      rw [runStepGroup_eq' n prog pipe g rs s ss hgs]
+      rw [runStepGroup_eq' n prog pipe g rs s ss hgs hg0]
       generalize hr : runSteps n prog pipe ss s = p
       obtain ⟨s1, r⟩ := p
       have h1 : Good s s1 := keeps_pair (ih2 pipe _ (hss ▸ progOk_groupSteps prog hp pipe g)) hr
@@ -177,9 +184,25 @@ theorem allGood_succ (prog : Program) (hp : progOk prog = true) (n : Nat) (ih : 
     cases hf : prog.find? pi.name with
     | none => rw [runPipeline_notFound n prog pi s hf]; exact rel_raiseNew good _ _ _
     | some pd =>
-      rw [runPipeline_eq n prog pi pd s hf]
-      simp only [prepareContext_noParser pd pi _ (progOk_parser prog hp pi.name pd hf)]
       have h0 : Good s { s with stack := pi.name :: s.stack } := sameCtx_good _ _ rfl
+      by_cases hgb : pi.groupsBad = true
+      · rw [runPipeline_groupsBad n prog pi pd s hf hgb]
+        simp only [prepareContext_noParser pd pi _ (progOk_parser prog hp pi.name pd hf)]
+        have h1' : Good { s with stack := pi.name :: s.stack }
+            (raiseNew { s with stack := pi.name :: s.stack } "TypeError" "~object is not iterable").1 :=
+          rel_raiseNew good _ _ _
+        by_cases hf0 : hasFailureGroup pi.failure = true
+        · simp only [hf0, if_true]
+          generalize hq : runFailureGroup n prog pi.name pi.failure
+            (raiseNew { s with stack := pi.name :: s.stack } "TypeError" "~object is not iterable").1 = q
+          obtain ⟨s2, r2⟩ := q
+          have h2 := keeps_pair (ih5 pi.name pi.failure) hq
+          cases r2 <;> exact good.trans h0 (good.trans h1' (good.trans h2 (sameCtx_good _ _ rfl)))
+        · simp only [hf0]
+          exact good.trans h0 (good.trans h1' (sameCtx_good _ _ rfl))
+      have hgb : pi.groupsBad = false := by simpa using hgb
+      rw [runPipeline_eq n prog pi pd s hf hgb]
+      simp only [prepareContext_noParser pd pi _ (progOk_parser prog hp pi.name pd hf)]
       generalize hr : runGroups n prog pi.name (effectiveGroups pi).1 (effectiveGroups pi).2.1
         (effectiveGroups pi).2.2 { s with stack := pi.name :: s.stack } = p
       obtain ⟨s2, r⟩ := p
